@@ -1088,6 +1088,7 @@ def m_sat_sub(c):
     v = c.an.binop(st, "Sub", a, c.args[0][1], b, c.args[1][1], c.args[0][1])
     # binop clips to the type range by forgetting; saturating keeps the clamp
     ia, ib = st.val_iv(a), st.val_iv(b)
+    a_lo_ok = bool(c.an.mag) and c.an.mag_lo_bounded(st, a)
     from .absdom import iv_sub
     i = iv_sub(ia, ib)
     lo = r[0] if (i[0] is None or (r[0] is not None and i[0] < r[0])) else i[0]
@@ -1101,6 +1102,17 @@ def m_sat_sub(c):
     t = ("v", d[0], d[1])
     st.set_iv(t, lo, hi)
     me = ("n", t, 0)
+    if a[0] == "n" and b[0] == "n" and (a[1] is not None or b[1] is not None):
+        # magnitude-wise a difference (see Analyzer.mag_parts); an operand that lives in the destination itself
+        # (`y = y.saturating_sub(n)`) is remembered by its lower bound before the update
+        a_rec, b_rec = a, b
+        ok_rec = True
+        if a[1] is not None and under(term_place(a[1]), d):
+            a_rec = ("n", None, 0) if a_lo_ok else None
+        if b[1] is not None and under(term_place(b[1]), d):
+            ok_rec = False
+        if ok_rec and a_rec is not None:
+            st.lin[d] = (a_rec, b_rec, "satsub") if a_rec is a else (a_rec, b_rec, "satsub", "lo")
     # unsigned (or b >= 0): result <= a
     if (r[0] == 0) or (ib[0] is not None and ib[0] >= 0):
         st.add_le(me, a, 0)
